@@ -1,5 +1,5 @@
 """Property registry: which machinery decides which property."""
-import json, os, re, sys
+import json, os, re, shutil, sys
 from checklib import *  # noqa
 
 STATE_PREDS = {"Conservation", "NoNegative", "WellFormed", "SysClean", "CounterWithRole"}
@@ -97,7 +97,28 @@ def fault_model(run):
         raise Infra("Fault.tla with Swallow=TRUE must violate an invariant (non-vacuity of C17's model)")
 
 
+def inductive_core(run):
+    """An extra, never the verdict: Apalache discharges conservation of the fungible core (FungibleCore.tla) as an inductive invariant
+    over unbounded integers: Init => IndInv and IndInv /\\ Next => IndInv'."""
+    d = run.spec_dir("apalache")
+    done = 0
+    for init, length in (("Init", 0), ("IndInit", 1)):
+        cmd = ["apalache-mc", "check", "--init=" + init, "--inv=IndInv", "--length=%d" % length, "--out-dir=" + os.path.join(d, "out"), "FungibleCore.tla"]
+        try:
+            rc, o = sh(cmd, cwd=d, timeout=600)
+        except Exception as e:
+            raise Infra("apalache did not run: %r" % e)
+        run.cov["tlc_cmds"].append("(cd %s && %s)" % (os.path.relpath(d, ROOT), " ".join(cmd)))
+        if rc != 0 or "EXITCODE: OK" not in o:
+            raise Infra("inductive obligation --init=%s not discharged by Apalache:\n%s" % (init, o[-1500:]))
+        done += 1
+    shutil.rmtree(os.path.join(d, "out"), ignore_errors=True)
+    run.cov["inductive_obligations_discharged"] = done
+
+
 LEDGER["C17"]["extra_mc"] = [fault_model]
+LEDGER["C01"]["extra_mc"] = [inductive_core]
+LEDGER["C02"]["extra_mc"] = [inductive_core]
 
 def drop_drift(run, viols):
     """Disagreement with the model's verdict beyond what the property's own predicates state is drift: recorded, never an alarm."""
